@@ -29,6 +29,7 @@ type Scenario struct {
 	Src      string   `json:"src"`
 	Args     []string `json:"args"`
 	Readable bool     `json:"readable"`
+	Unread   string   `json:"unread"` // how the file argument is unreadable: "" / "missing" (no such file) | "dir" (a directory) | "perm" (no read permission)
 }
 
 type Obs struct {
@@ -127,7 +128,18 @@ func main() {
 		} else {
 			p := path
 			if !s.Readable {
-				p = filepath.Join(dir, "does-not-exist", "nope.ank")
+				switch s.Unread {
+				case "dir":
+					p = filepath.Join(dir, fmt.Sprintf("d%d.ank", n))
+					os.Mkdir(p, 0o755)
+				case "perm":
+					os.Chmod(path, 0)
+					if os.Geteuid() == 0 { // root reads anything: fall back to a missing file
+						p = filepath.Join(dir, "does-not-exist", "nope.ank")
+					}
+				default:
+					p = filepath.Join(dir, "does-not-exist", "nope.ank")
+				}
 			}
 			cargs = append([]string{p}, s.Args...)
 		}
